@@ -143,7 +143,7 @@ public:
     int prefix_pairs = (int)g.rng.below(3 * real_cap + 1);
     int fill = (int)g.rng.below(real_cap + 1);
     p.params = {cap, prefix_pairs, fill};
-    int nt = g.rng.range(2, g.tier ? 4 : 3);
+    int nt = g.rng.range(2, (g.tier || g.rng.chance(20)) ? 4 : 3);
     int maxops = g.tier ? 8 : 6;
     int next = prefix_pairs + fill + 1;
     p.threads.resize(nt);
